@@ -9,7 +9,7 @@ package recovery
 //@   property C10 also C11
 //@   safety C10
 //@   requires decryptHeader != nil && verifyHeader != nil
-//@   modifies *, indexWrites, ghosts(C04), ghosts(C08), ghosts(C09), ghosts(C14), ghosts(C07)
+//@   modifies *, indexWrites, ghosts(C04), ghosts(C08), ghosts(C09), ghosts(C14), ghosts(C07), ghosts(C12)
 //@   ensures [drive-unchanged] driveHeld == old(driveHeld)
 //@   property C04
 //@   requires [grid] reader.DriveIsRegular ==> pipes.RecordSize >= 1 && record >= 0 && block >= 0 && block < pipes.RecordSize
@@ -17,6 +17,7 @@ package recovery
 //@   at call indexHeader#1 assert [header-position] 512*(pipes.RecordSize*arg_record+arg_block) == hdrStart(arg_hdr) && 0 <= arg_block && arg_block < pipes.RecordSize
 //@   property C06
 //@   at call Seek#3 assert [resync-forward] arg_offset >= curr && arg_offset - curr < 512 && arg_offset % 512 == 0 && arg_whence == 0
+//@   at call Seek#2 cover [resync-on-parse-error] err != nil && err != io.EOF
 //@   property C07
 //@   at call PurgeAllHeaders#1 assert [no-purge-unless-overwrite] overwrite
 //@   property C08
@@ -30,7 +31,7 @@ package recovery
 //@   param onHeader is HeaderCallback
 //@   property C10 also C11
 //@   safety C10
-//@   modifies *, ghosts(C04), ghosts(C08), ghosts(C09), ghosts(C14), ghosts(C07)
+//@   modifies *, ghosts(C04), ghosts(C08), ghosts(C09), ghosts(C14), ghosts(C07), ghosts(C12)
 //@   ensures [drive-unchanged] driveHeld == old(driveHeld)
 //@   property C04
 //@   requires [grid] reader.DriveIsRegular ==> pipes.RecordSize >= 1 && record >= 0 && block >= 0 && block < pipes.RecordSize
@@ -46,11 +47,14 @@ package recovery
 //@   param onHeader is HeaderCallback
 //@   property C10 also C11
 //@   safety C10
-//@   modifies *, ghosts(C04), ghosts(C08), ghosts(C09), ghosts(C14), ghosts(C07)
+//@   modifies *, ghosts(C04), ghosts(C08), ghosts(C09), ghosts(C14), ghosts(C07), ghosts(C12)
 //@   ensures [drive-unchanged] driveHeld == old(driveHeld)
 //@   property C04
 //@   at call Seek#1 assert [seek-target] arg_offset == 512*(pipes.RecordSize*record+block) && arg_whence == 0
+//@   property C03
+//@   at call Copy#2 assert [copies-whole-verified-stream] arg_src == verifier && arg_dst == dstFile
 //@   property C08
+//@   at call Copy#1 assert [raw-copy-only-for-non-regular] fiMode(hdrInfoOf(hdr)) & 2401763328 != 0
 //@   at call getDst assert [accept-site] hdrVerified[hdr]
 //@   at call mkdirAll assert [accept-site-dir] hdrVerified[hdr]
 
@@ -58,7 +62,9 @@ package recovery
 //@   param onHeader is HeaderCallback
 //@   property C10 also C11
 //@   safety C10
-//@   modifies *, indexWrites, hdrVerified[hdr], hdrSubstituted[hdr], hdrSealed[hdr], ghosts(C14), ghosts(C07), keyMoves
+//@   modifies *, indexWrites, hdrVerified[hdr], hdrSubstituted[hdr], hdrSealed[hdr], ghosts(C14), ghosts(C07), ghosts(C12), keyMoves
+//@   property C07
+//@   ensures [move-record-rewrites-key] old(has(hdr.PAXRecords, "STFS.ReplacesName")) && (!old(has(hdr.PAXRecords, "STFS.Version")) || old(hdr.PAXRecords["STFS.Version"]) == "1") && old(hdr.PAXRecords["STFS.Action"]) == "UPDATE" && result == nil ==> keyMoves == old(keyMoves) + 1
 //@   property C04
 //@   at call UpdateHeaderMetadata#1 assert [edits-before-move] keyMoves == old(keyMoves)
 //@   at call UpdateHeaderMetadata#2 assert [edits-before-move-meta] keyMoves == old(keyMoves)
